@@ -42,7 +42,8 @@ TAGS = {
 CORR = (1, 2, 3, 4, 5, 6, 7, 8)
 # oracle tag -> (correspondence tags that must be absent for the model to explain the failure,
 #                guard tag that must be present, finding id)
-# C05-SELF-FLOW is fixed in /repo (34eef54): open_finding() is None for it, so tags 14 / 15 are a VIOLATION again.
+# C05-SELF-FLOW (34eef54) and C05-EQ-RAISES-NO-DOSE (876afb2) are fixed in /repo: open_finding() is None for them,
+# so tags 14 / 15 / 17 are a VIOLATION again.
 ORACLE = {
     11: ((1, 3), None, None), 12: ((3, 5), None, None), 13: ((3, 4, 5), None, None),
     14: ((1, 3, 4), 201, 'C05-SELF-FLOW'), 15: ((1, 3, 5), 201, 'C05-SELF-FLOW'),
@@ -684,6 +685,8 @@ def finding_probes(ctx):
 
 
 def run(ctx):
+    # staging entries (known_findings.d) replace merged ones of the same id, as the maintainer's merge does
+    ctx.findings = list({f['id']: f for f in ctx.findings}.values())
     ctx.build_gate(['C05'])
     ctx.log('build gate done')
     ctx.trusted += [
